@@ -49,6 +49,42 @@ const (
 
 type hcStep struct {
 	Name string `json:"name"`
+	// Race (TimerFire): the publisher of the next step (PubStart) arrives after the timer has decided to remove the
+	// directory and before it removes it (verif hook logic.VerifCleanupGate)
+	Race bool `json:"race"`
+}
+
+// hcGate holds an expiry of one stream between its decision and the removal while a race step is waiting for it.
+type hcGate struct {
+	mu      sync.Mutex
+	armed   bool
+	reached chan struct{}
+	release chan struct{}
+}
+
+var hcGates sync.Map // stream name -> *hcGate
+
+func init() {
+	logic.VerifCleanupGate = func(streamName string) {
+		v, ok := hcGates.Load(streamName)
+		if !ok {
+			return
+		}
+		g := v.(*hcGate)
+		g.mu.Lock()
+		if !g.armed {
+			g.mu.Unlock()
+			return
+		}
+		g.armed = false
+		reached, release := g.reached, g.release
+		g.mu.Unlock()
+		close(reached)
+		select {
+		case <-release:
+		case <-time.After(5 * time.Second):
+		}
+	}
 }
 
 type hcScenario struct {
@@ -307,7 +343,12 @@ func runHlsCleanupScenario(sc *hcScenario, emitEv func(M)) {
 			sm.DelCustomizePubSession(cust)
 		}
 	}()
+	skip := false
 	for i, st := range sc.Steps {
+		if skip {
+			skip = false
+			continue
+		}
 		if st.Name == "TimerFire" {
 			if len(pending) == 0 {
 				late(i, "no timer is pending")
@@ -315,12 +356,70 @@ func runHlsCleanupScenario(sc *hcScenario, emitEv func(M)) {
 			}
 			t := pending[0]
 			pending = pending[1:]
+			var gate *hcGate
+			if st.Race && i+1 < len(sc.Steps) && sc.Steps[i+1].Name == "PubStart" {
+				gate = &hcGate{armed: true, reached: make(chan struct{}), release: make(chan struct{})}
+				hcGates.Store(stream, gate)
+			}
 			// just before the timer is due nothing has happened yet ...
 			time.Sleep(time.Until(t.a.Add(delay - hcGuard)))
 			pre := r.observe()
 			if time.Now().After(t.a.Add(delay - hcGuard/5)) {
 				late(i, "the observation before the expiry ended too close to it")
 				return
+			}
+			if gate != nil {
+				reached := false
+				select {
+				case <-gate.reached:
+					reached = true
+				case <-time.After(time.Until(t.b.Add(delay + hcMargin))):
+					gate.mu.Lock()
+					gate.armed = false
+					gate.mu.Unlock()
+				}
+				hcGates.Delete(stream)
+				if reached {
+					// the timer has decided to remove the directory and is held in front of the removal: the publisher arrives
+					done := make(chan string, 1)
+					go func() {
+						p := ""
+						defer func() {
+							if e := recover(); e != nil {
+								p = fmt.Sprint(e)
+							}
+							done <- p
+						}()
+						r.ep++
+						fed = false
+						c, err := sm.AddCustomizePubSession(stream)
+						if err != nil {
+							p = "AddCustomizePubSession: " + err.Error()
+							return
+						}
+						cust = c
+					}()
+					pan, finished := "", false
+					select {
+					case pan = <-done:
+						finished = true
+					case <-time.After(250 * time.Millisecond):
+						// the arrival waits for the expiry to finish: serialised by lal itself
+					}
+					close(gate.release)
+					if !finished {
+						pan = <-done
+					}
+					time.Sleep(120 * time.Millisecond) // the removal itself (a handful of small files)
+					<-t.canary
+					emitEv(M{"ev": "TimerFire+PubStart", "pre": pre, "obs": r.observe(), "panic": pan, "arrivalWaited": !finished})
+					skip = true
+					if len(pending) > 0 && time.Now().After(pending[0].a.Add(delay-hcGuard)) {
+						late(i, "observing the expiry ran into the next one")
+						return
+					}
+					continue
+				}
 			}
 			// ... and shortly after it the timer has done its work
 			time.Sleep(time.Until(t.b.Add(delay + hcMargin)))
